@@ -54,6 +54,22 @@ pub const FILLERS: [&str; 4] = ["a", "\u{E9}", "\u{4E00}", "\u{1F4A9}"];
 
 pub fn run(ctx: &Ctx, ev: &mut Ev) {
     let mut drv = Driver::new();
+    if ctx.mode == Mode::Miri {
+        // dedicated small workload for the UB interpreter (scalar UTF-8 path forced: cpuid is not interpretable)
+        let mut r = ctx.rng(144);
+        for _ in 0..(if ctx.thorough() { 330 } else { 24 }) {
+            let len = *r.pick(&[0usize, 1, 3, 4, 5, 7, 15, 16, 17, 31, 33, 63, 64, 65, 70]);
+            let filler = FILLERS[r.below(4)].as_bytes();
+            let mut base: Vec<u8> = vec![]; while base.len() + filler.len() <= len { base.extend_from_slice(filler); } while base.len() < len { base.push(b'z'); }
+            if r.chance(5) { check_bytes(&mut drv, ev, &base, r.below(16), false, true); continue; }
+            let d = DEFECTS[r.below(DEFECTS.len())];
+            let mut p = r.below(base.len() + 1); while p < base.len() && (base[p] & 0xC0) == 0x80 { p += 1; }
+            let mut v = base[..p].to_vec(); v.extend_from_slice(d); if r.chance(2) { let mut q = (p + d.len()).min(base.len()); while q < base.len() && (base[q] & 0xC0) == 0x80 { q += 1; } v.extend_from_slice(&base[q..]); }
+            check_bytes(&mut drv, ev, &v, r.below(16), false, true);
+        }
+        for _ in 0..(if ctx.thorough() { 120 } else { 10 }) { let u = crate::memfn::gen_src(&mut r, crate::memfn::SrcKind::Units, 2); check_units(&mut drv, ev, &u.units[..u.units.len().min(50)], r.below(8) * 2, false); }
+        return;
+    }
     let th = ctx.thorough();
     let miri = ctx.mode == Mode::Miri;
     let tiny = miri || ctx.mode == Mode::Vg;
